@@ -176,6 +176,8 @@ impl<CS: CipherSuite> State<CS> {
 
     /// Load the current `read_off` from `shm`.
     fn read_off(&self, shm: &SharedMem<CS>) -> Result<Offset, Corrupted> {
+        #[cfg(aranya_core_verif)]
+        crate::verif::yield_point("roff.load");
         let off = shm.read_off.load(Ordering::SeqCst);
         if unlikely!(!self.valid_offset(off)) {
             Err(corrupted("invalid read offset"))
@@ -186,6 +188,8 @@ impl<CS: CipherSuite> State<CS> {
 
     /// Load the current `write_off` from `shm`.
     pub(super) fn write_off(&self, shm: &SharedMem<CS>) -> Result<Offset, Corrupted> {
+        #[cfg(aranya_core_verif)]
+        crate::verif::yield_point("woff.load");
         let off = shm.write_off.load(Ordering::SeqCst);
         if unlikely!(!self.valid_offset(off)) {
             Err(corrupted("invalid write offset"))
@@ -200,6 +204,8 @@ impl<CS: CipherSuite> State<CS> {
         shm: &SharedMem<CS>,
         write_off: Offset,
     ) -> Result<Offset, Corrupted> {
+        #[cfg(aranya_core_verif)]
+        crate::verif::yield_point("roff.swap");
         let off = shm.read_off.swap(write_off.into(), Ordering::SeqCst);
         if unlikely!(!self.valid_offset(off)) {
             Err(corrupted("invalid write offset"))
@@ -222,6 +228,80 @@ impl<CS: CipherSuite> State<CS> {
         let list = self.load_read_list()?.lock().assume("poisoned")?;
         list.find(ch, hint, Op::Any)
             .map(|res| res.map(|(chan, idx)| ((*chan).clone(), idx)))
+    }
+}
+
+/// Verification only: a raw, unsynchronised view of the shared memory (no yield points, no
+/// locks).  Only meaningful while no other thread is running (the harness scheduler calls it
+/// when every worker is parked).
+#[cfg(aranya_core_verif)]
+#[derive(Clone, Debug, Default, Eq, PartialEq)]
+#[allow(missing_docs)]
+pub struct VerifSnapshot {
+    /// 0 = `read_off` refers to side a, 1 = side b, 2 = neither
+    pub read_side: u8,
+    /// the same for `write_off`
+    pub write_side: u8,
+    pub next_chan_id: u64,
+    /// per side (a, b): mutex word, generation, len, cap, (channel id, direction) of `[0, len)`
+    pub sides: [VerifSide; 2],
+}
+
+/// Verification only: one side of [`VerifSnapshot`].
+#[cfg(aranya_core_verif)]
+#[derive(Clone, Debug, Default, Eq, PartialEq)]
+#[allow(missing_docs)]
+pub struct VerifSide {
+    pub mutex_word: u32,
+    pub generation: u32,
+    pub len: u64,
+    pub cap: u64,
+    pub chans: alloc::vec::Vec<(u64, u32)>,
+}
+
+#[cfg(aranya_core_verif)]
+impl<CS: CipherSuite> State<CS> {
+    pub(super) fn verif_snapshot(&self) -> VerifSnapshot {
+        let shm = self.shm();
+        let which = |off: usize| -> u8 {
+            if off == self.side_a {
+                0
+            } else if off == self.side_b {
+                1
+            } else {
+                2
+            }
+        };
+        let side = |off: usize| -> VerifSide {
+            let Ok(m) = shm.side(Offset(off)) else {
+                return VerifSide::default();
+            };
+            // SAFETY: verification only; the caller guarantees that no other thread runs.
+            let data = unsafe { m.inner_unsynchronized() };
+            // not through `chans()`: its debug assertion (`len <= cap`) must not fire in
+            // the observer when the state under observation is broken
+            let n = u64::from(data.len).min(u64::from(data.cap));
+            let n = usize::try_from(n).unwrap_or(0);
+            let first = ptr::addr_of!(data.chans).cast::<ShmChan<CS>>();
+            // SAFETY: `first` is aligned and `n <= cap` slots follow it.
+            let chans = unsafe { slice::from_raw_parts(first, n) }
+                .iter()
+                .map(|c| (u64::from(c.local_channel_id), u32::from(c.direction)))
+                .collect();
+            VerifSide {
+                mutex_word: m.verif_key(),
+                generation: data.generation.load(Ordering::SeqCst),
+                len: u64::from(data.len),
+                cap: u64::from(data.cap),
+                chans,
+            }
+        };
+        VerifSnapshot {
+            read_side: which(shm.read_off.load(Ordering::SeqCst)),
+            write_side: which(shm.write_off.load(Ordering::SeqCst)),
+            next_chan_id: shm.next_chan_id.load(Ordering::SeqCst),
+            sides: [side(self.side_a), side(self.side_b)],
+        }
     }
 }
 
@@ -826,7 +906,11 @@ impl<CS: CipherSuite> ChanListData<CS> {
 
     /// Truncates the list.
     pub fn clear(&mut self) {
+        #[cfg(aranya_core_verif)]
+        crate::verif::yield_point("len.set");
         self.len = U64::new(0);
+        #[cfg(aranya_core_verif)]
+        crate::verif::yield_point("gen.inc");
         self.generation.fetch_add(1, Ordering::AcqRel);
     }
 
@@ -916,6 +1000,8 @@ impl<CS: CipherSuite> ChanListData<CS> {
             if !updated {
                 // As a precaution, update the generation before
                 // we actually delete anything.
+                #[cfg(aranya_core_verif)]
+                crate::verif::yield_point("gen.inc");
                 let generation = self.generation.fetch_add(1, Ordering::AcqRel);
                 debug!("side generation={}", generation + 1);
 
@@ -1038,6 +1124,8 @@ impl<CS: CipherSuite> ChanListData<CS> {
         } else if unlikely!(idx >= len) {
             Err(corrupted("`ShmChan` index out of range"))
         } else {
+            #[cfg(aranya_core_verif)]
+            crate::verif::yield_point("len.set");
             // No need to perform a swap if there is only one
             // channel.
             if len > 1 {
